@@ -37,6 +37,9 @@ type Solver struct {
 	buf     strings.Builder
 	oneShot map[string]uint64 // variable assignment of the last one-shot Sat answer (nil otherwise)
 	OneShots int
+	XEvery   int // cross-check every n-th definite answer with a second solver (0 = off)
+	XChecked int
+	XSecond  string
 	Tactic   string // when set, queries use (check-sat-using <tactic>) instead of the incremental core
 	incTimeoutMs int
 }
@@ -242,9 +245,15 @@ func (s *Solver) Check(pc []*Term, extra *Term) (SatResult, error) {
 	switch lines[len(lines)-1] {
 	case "sat":
 		s.Sat++
+		if err := s.crossCheck(full, Sat); err != nil {
+			return Unknown, err
+		}
 		return Sat, nil
 	case "unsat":
 		s.Unsat++
+		if err := s.crossCheck(full, Unsat); err != nil {
+			return Unknown, err
+		}
 		return Unsat, nil
 	}
 	// the incremental core gave up (short timeout): decide the same query in a fresh process, where the
@@ -267,8 +276,38 @@ func (s *Solver) Check(pc []*Term, extra *Term) (SatResult, error) {
 	return r, nil
 }
 
+// crossCheck re-decides every XEvery-th query with an independent solver (standalone script); a
+// disagreement is an error of the run (the encoding or a solver is wrong), never a verdict.
+func (s *Solver) crossCheck(pc []*Term, got SatResult) error {
+	if s.XEvery <= 0 || s.Queries%s.XEvery != 0 {
+		return nil
+	}
+	second := "cvc5"
+	if strings.HasPrefix(s.name, "cvc5") {
+		second = "z3-new"
+	}
+	save := s.name
+	s.name = second
+	r, err := s.checkOneShotWith(pc, second, 20000)
+	s.name = save
+	s.oneShot = nil
+	if err != nil || r == Unknown {
+		return nil // the second solver could not decide in its budget: no information
+	}
+	s.XChecked++
+	s.XSecond = second
+	if r != got {
+		return fmt.Errorf("solver disagreement: %s says %v, %s says %v", save, got, second, r)
+	}
+	return nil
+}
+
 // checkOneShot writes a standalone script for the conjunction and runs a fresh solver process on it.
 func (s *Solver) checkOneShot(pc []*Term) (SatResult, error) {
+	return s.checkOneShotWith(pc, "", s.timeoutMs)
+}
+
+func (s *Solver) checkOneShotWith(pc []*Term, which string, timeoutMs int) (SatResult, error) {
 	var sb strings.Builder
 	seen := map[int]bool{}
 	var order []*Term
@@ -340,9 +379,11 @@ func (s *Solver) checkOneShot(pc []*Term) (SatResult, error) {
 	if s.name == "z3" {
 		bin = "z3"
 	}
-	cmd := exec.Command(bin, fmt.Sprintf("-T:%d", s.timeoutMs/1000+1), f.Name())
-	if strings.HasPrefix(s.name, "cvc5") {
-		cmd = exec.Command("cvc5", "--lang=smt2", "--solve-bv-as-int=sum", fmt.Sprintf("--tlimit=%d", s.timeoutMs), f.Name())
+	cmd := exec.Command(bin, fmt.Sprintf("-T:%d", timeoutMs/1000+1), f.Name())
+	if which == "cvc5" {
+		cmd = exec.Command("cvc5", "--lang=smt2", fmt.Sprintf("--tlimit=%d", timeoutMs), f.Name())
+	} else if which == "" && strings.HasPrefix(s.name, "cvc5") {
+		cmd = exec.Command("cvc5", "--lang=smt2", "--solve-bv-as-int=sum", fmt.Sprintf("--tlimit=%d", timeoutMs), f.Name())
 	}
 	out, _ := cmd.Output()
 	txt := string(out)
